@@ -23,7 +23,8 @@ Gated == { St(A, "JOIN", <<<<"#one">>>>), St(A, "PRIVMSG", <<<<"obs">>, <<"psst"
            St(A, "SQUIT", <<<<"irc.irc">>, <<"x">>>>), St(A, "REHASH", <<>>), St(A, "RESTART", <<>>), St(A, "CONNECT", <<<<"a.b">>>>),
            St(A, "PONG", <<<<"t">>>>), St(A, "AUTHENTICATE", <<>>), St(A, "FOO", <<>>) }
 RegCmds(c) ==
-    { St(c, "PASS", <<<<"srvpass">>>>), St(c, "PASS", <<<<"userpass">>>>), St(c, "PASS", <<<<"wrong">>>>),
+    { St(c, "PASS", <<<<"srvpass">>>>), St(c, "PASS", <<<<"userpass">>>>), St(c, "PASS", <<<<"wrong">>>>), St(c, "PASS", <<<<"srvpass ">>>>), St(c, "PASS", <<<<" userpass">>>>),   \* exactly that password: padding is a different one
+     
       St(c, "NICK", <<<<"ann">>>>), St(c, "NICK", <<<<"obs">>>>),
       St(c, "USER", <<<<"u1">>, <<"R">>>>), St(c, "USER", <<<<"reg1">>, <<"R">>>>), St(c, "USER", <<<<"reg2">>, <<"R">>>>),
       St(c, "USER", <<<<"reg3">>, <<"R">>>>), St(c, "USER", <<<<"Reg4">>, <<"R">>>>), St(c, "USER", <<<<"reg4">>, <<"R">>>>),
